@@ -618,11 +618,13 @@ func allocSite(e *ev.Env, c *ev.Case, mk func() *fiber.App, input []byte, limit,
 		println("allocSite: all components off ->", base, "threshold", threshold)
 	}
 	var explains, full []string
+	var present, irrelevant []comp
 	for _, f := range comps {
 		alt, ok := f.alt(input)
 		if !ok {
 			continue
 		}
+		present = append(present, f)
 		d, p := coldAlloc(e, c, mk, alt)
 		if e.Verbose {
 			println("allocSite: without", f.name, "->", d)
@@ -633,6 +635,54 @@ func allocSite(e *ev.Env, c *ev.Case, mk func() *fiber.App, input []byte, limit,
 		// removal leaves (about) what the bare request costs: the component accounts for all of it
 		if !p && d <= base+base/2+32<<10 {
 			full = append(full, f.name)
+		}
+		// removal changes nothing: the component has no part in this allocation
+		if !p && d+d/10 >= total && d <= total+total/10 {
+			irrelevant = append(irrelevant, f)
+		}
+	}
+	if len(explains) == 0 && len(irrelevant) > 0 {
+		// no single removal helps: a component may be masked by one that has no part in the
+		// allocation as observed but takes over once the first is gone (a body that becomes
+		// complete when de-chunked and is then inflated). Remove the irrelevant ones as well.
+		for _, f := range present {
+			skip := false
+			for _, g := range irrelevant {
+				skip = skip || g.name == f.name
+			}
+			if skip {
+				continue
+			}
+			alt, ok := f.alt(input)
+			for _, g := range irrelevant {
+				if a2, ok2 := g.alt(alt); ok && ok2 {
+					alt = a2
+				}
+			}
+			if !ok {
+				continue
+			}
+			d, p := coldAlloc(e, c, mk, alt)
+			if e.Verbose {
+				println("allocSite: without", f.name, "and the components without a part ->", d)
+			}
+			if !p && d <= threshold {
+				explains = append(explains, f.name)
+			}
+		}
+	}
+	// the size of the allocation is evidence too: a buffer of about the announced size is the
+	// announcement's, even if switching off another component makes the server take a path
+	// that does not buffer (multipart bodies are streamed unless they are content-encoded)
+	if announced := declaredBody(input); len(explains) > 1 && announced >= 64<<10 && total+total/8 >= announced && total <= 2*announced+limit {
+		var only []string
+		for _, x := range explains {
+			if strings.HasPrefix(x, "announced-") {
+				only = append(only, x)
+			}
+		}
+		if len(only) == 1 {
+			explains, full = only, only
 		}
 	}
 	// an announced size can only account for a buffer of about that size: when far more was
@@ -857,7 +907,13 @@ func runSurvive(e *ev.Env) {
 	one("brotli-13-bytes-to-1m", appOpts{}, []byte("POST /ks?rid=c8 HTTP/1.1\r\nHost: x\r\nContent-Encoding: br\r\nContent-Length: "+itoa(len(brbomb))+"\r\n\r\n"+string(brbomb)), 200)
 
 	// -------- generated pipelines --------------------------------------------------------
-	e.Cases("pipe", e.N(60000, 5000000), func(c *ev.Case) {
+	nPipe := e.N(60000, 5000000)
+	if raceBuild {
+		// the race detector costs about 6x: the thorough race sub-check (4 shards) gets a share
+		// of the family that fits its time limit; the case list is a prefix of the plain one
+		nPipe = e.N(60000, 400000)
+	}
+	e.Cases("pipe", nPipe, func(c *ev.Case) {
 		r := c.R
 		o := appOpts{kind: r.Intn(nCfg), ipValidation: r.Bool(), trustProxy: r.Bool()}
 		g := &genCtx{r: r, methods: o.methods(), rbuf: o.readBuf(), blimit: o.bodyLimit()}
